@@ -109,25 +109,50 @@ func r081Projection(c *an.Ctx) {
 	if !dupOK {
 		probs = append(probs, "the projected type is not initialised from a copy of the view's type (Dup(v.Type))")
 	}
-	// required names are filtered by membership in the view object
+	// required names are filtered by membership in the view object (here, or in a helper extracted from
+	// this function that receives the view object)
 	reqOK := false
-	ast.Inspect(f.Decl.Body, func(n ast.Node) bool {
-		rs, ok := n.(*ast.RangeStmt)
-		if !ok {
-			return true
-		}
-		if fv := an.FieldOf(info, rs.X); fv == nil || fv.Name() != "Required" {
-			return true
-		}
-		for _, call := range an.CallsIn(rs.Body) {
-			if an.CalleeName(info, call) == "(*"+an.P("expr")+".Object).Attribute" {
-				if se, ok := an.Unparen(call.Fun).(*ast.SelectorExpr); ok && an.ObjOf(info, se.X) == viewObj && len(call.Args) == 1 && an.ObjOf(info, call.Args[0]) == an.ObjOf(info, rs.Value) {
-					reqOK = true
+	type scope struct {
+		fn  *an.Func
+		obj types.Object
+	}
+	scopes := []scope{{f, viewObj}}
+	for _, h := range c.WithNewHelpers(f)[1:] {
+		for _, call := range an.AllCallsIn(f.Decl.Body) {
+			if an.Callee(info, call) != types.Object(h.Obj) {
+				continue
+			}
+			k := 0
+			for _, fl := range h.Decl.Type.Params.List {
+				for _, nm := range fl.Names {
+					if k < len(call.Args) && an.ObjOf(info, call.Args[k]) == viewObj {
+						scopes = append(scopes, scope{h, h.Pkg.TypesInfo.Defs[nm]})
+					}
+					k++
 				}
 			}
 		}
-		return true
-	})
+	}
+	for _, sc := range scopes {
+		sinfo := sc.fn.Pkg.TypesInfo
+		ast.Inspect(sc.fn.Decl.Body, func(n ast.Node) bool {
+			rs, ok := n.(*ast.RangeStmt)
+			if !ok {
+				return true
+			}
+			if fv := an.FieldOf(sinfo, rs.X); fv == nil || fv.Name() != "Required" {
+				return true
+			}
+			for _, call := range an.CallsIn(rs.Body) {
+				if an.CalleeName(sinfo, call) == "(*"+an.P("expr")+".Object).Attribute" {
+					if se, ok := an.Unparen(call.Fun).(*ast.SelectorExpr); ok && an.ObjOf(sinfo, se.X) == sc.obj && len(call.Args) == 1 && an.ObjOf(sinfo, call.Args[0]) == an.ObjOf(sinfo, rs.Value) {
+						reqOK = true
+					}
+				}
+			}
+			return true
+		})
+	}
 	if !reqOK {
 		probs = append(probs, "required names are not filtered by membership in the view")
 	}
@@ -157,7 +182,7 @@ func r082Unknown(c *an.Ctx) {
 				return true
 			}
 			derefs++
-			if loc, found := g.LocOf(se); found && !g.NonNilAt(viewVar, loc) {
+			if _, found := g.LocOf(se); found && !g.NonNilAtNode(viewVar, se) {
 				probs = append(probs, "the view is dereferenced ("+types.ExprString(se)+") where no nil test dominates")
 			}
 			return true
